@@ -43,6 +43,7 @@ type Cmd struct {
 	D    int    `json:"d,omitempty"`    // probe: >0 sleep that many microseconds, <0 that many Gosched calls
 	F    bool   `json:"f,omitempty"`    // probe: returns an error (after its end event)
 	S    bool   `json:"s,omitempty"`    // failing probe: calls Stop() on its scope before it returns the error (a command that gives up)
+	FK   string `json:"fk,omitempty"`   // failing probe that returns nil: "kill" = Kill() its scope, "stop-kill" = Stop() then Kill(), "append" = AppendError
 	Body []Cmd  `json:"body,omitempty"` // run / try: the body script
 	Succ []Cmd  `json:"succ,omitempty"` // try: success handler (defined iff non-empty)
 	Fail []Cmd  `json:"fail,omitempty"` // try: fail handler
@@ -78,6 +79,7 @@ type probeInfo struct {
 	ctx   int
 	fail  bool
 	stop  bool // failing probe stops its scope before returning the error
+	fk    string
 	setup bool // pseudo probe: a nested task whose sandbox fails at set-up
 	d     int
 	anc   []ancRef // enclosing (try, section) pairs, outermost first
@@ -141,7 +143,7 @@ func (b *builder) script(sb *strings.Builder, cmds []Cmd, ctx int, anc []ancRef,
 		id := b.newID()
 		switch c.K {
 		case "p":
-			b.ix.probes[id] = &probeInfo{id: id, ctx: ctx, fail: c.F, stop: c.F && c.S, d: c.D, anc: append([]ancRef(nil), anc...)}
+			b.ix.probes[id] = &probeInfo{id: id, ctx: ctx, fail: c.F, stop: c.F && c.S, fk: c.FK, d: c.D, anc: append([]ancRef(nil), anc...)}
 			b.ix.probeIDs = append(b.ix.probeIDs, id)
 			fmt.Fprintf(sb, "%sp --id=%d\n", indent, id)
 		case "run":
@@ -471,6 +473,18 @@ func run(c Case) hx.Verdict {
 			ctx.IO().Out().Printf("probe %d\n", id)
 			rec.add(id, false)
 			if p.fail {
+				switch p.fk {
+				case "kill":
+					ctx.Scope().Kill()
+					return nil
+				case "stop-kill":
+					ctx.Scope().Stop()
+					ctx.Scope().Kill()
+					return nil
+				case "append":
+					ctx.Scope().AppendError(errProbe)
+					return nil
+				}
 				if p.stop {
 					ctx.Scope().Stop()
 				}
@@ -802,6 +816,11 @@ func judge(c Case, ix *index, log []event, complete bool, oc outcome) hx.Verdict
 		if p := ix.probes[id]; p.stop && began(id) {
 			v.Label("failing-command-stopped-its-scope-first")
 			break
+		}
+	}
+	for _, id := range ix.probeIDs {
+		if p := ix.probes[id]; p.fail && p.fk != "" && began(id) {
+			v.Label("failing-command-returned-nil:" + p.fk)
 		}
 	}
 	if ctxFailedBegan[0] {
